@@ -38,6 +38,7 @@ func C02(c *hx.Ctx) {
 	c.Logf("%d cases", len(cases))
 	var mu sync.Mutex
 	obs := &obsBatch{}
+	ops := &opsBatch{}
 	type kept struct {
 		sink, plain []byte
 		idx         int
@@ -60,6 +61,20 @@ func C02(c *hx.Ctx) {
 		if !ok {
 			return
 		}
+		if n := len(run.Written); n > 0 && n <= 20000 {
+			// operation level: every operation of every block must be enabled in Lzma.tla with the
+			// window bounded by the dictionary size the block header declares
+			x2 := ref.DecodeXZ(run.Sink, ref.XZOpts{WantOps: true})
+			mu.Lock()
+			if x2.Err == nil && ops.lines < c.Pick(120000, 600000) {
+				for bi, b := range x2.Streams[0].Blocks {
+					if d, ok := ref.DictSizeOfCode(b.DictCode); ok {
+						ops.addL2(fmt.Sprintf("xz case %d block %d cfg %s", i, bi, cs.G.String()), d, b.L2)
+					}
+				}
+			}
+			mu.Unlock()
+		}
 		mu.Lock()
 		if obs.n < c.Pick(3000, 20000) {
 			obs.add(fmt.Sprint(i), writerObs(cs.G, run, xr.Streams[0]))
@@ -79,6 +94,14 @@ func C02(c *hx.Ctx) {
 			c.Sample(map[string]any{"cfg": cs.G.String(), "hist": cs.Hist, "layout": ks})
 		}
 	})
+	if tag, line, ok := ops.validate(c); ok && tag != "" {
+		if c.Violations() == 0 {
+			c.Inconclusive("TLC (TraceLzma) rejects the operations of a block the real writer emitted and the reference decoder accepted, at line %d: %s", line, tag)
+		} else {
+			c.Logf("TraceLzma rejects an emitted block at line %d (%s), consistent with the reported violations", line, tag)
+		}
+	}
+	c.Extra["op_traces_validated"] = ops.cases
 	bad, ok := obs.validate(c)
 	if ok {
 		for _, t := range bad {
